@@ -1354,7 +1354,74 @@ def check_C10(run, replay=None):
     return run.finish()
 
 
-CHECKS = {"C02": check_C02, "C10": check_C10, "C09": check_C09, "C12": check_C12, "C15": check_C15, "C19": check_C19, "C13": check_C13, "C03": check_C03, "C04": check_C04, "C05": check_C05, "C06": check_C06, "C07": check_C07, "C08": check_C08, "C11": check_C11, "C16": check_C16, "C17": check_C17}
+# ---- C01: compile matrix, naming differential --------------------------------
+
+def check_C01(run, replay=None):
+    proof_ok = run.proof_side()
+    cases, impl, model, meta = run.run_vh(["-cases", replay] if replay else None, timeout=6000)
+    dline = {}
+    for c in cases:
+        if c.startswith("D "):
+            dline[c.split(" ", 2)[1]] = c
+    # (1) the naming function against its model
+    nidx = [i for i, c in enumerate(cases) if c.startswith("N ")]
+    compare(run, [cases[i] for i in nidx], [impl[i] for i in nidx], [model[i] for i in nidx])
+    # (2) the matrix: success => parses, gofmt-stable, standard library only, type-checks
+    verdicts = {}
+    bad = []
+    n_cells = 0
+    for i, c in enumerate(cases):
+        if not c.startswith("C01 "):
+            continue
+        n_cells += 1
+        f = c.split(" ")
+        kv = parse_kv(impl[i])
+        v = kv.get("impl", "MISSING")
+        verdicts[v] = verdicts.get(v, 0) + 1
+        if v in ("ok", "rejected"):
+            continue
+        name = bytes.fromhex(f[2]).decode("utf8", "replace")
+        detail = bytes.fromhex(kv.get("detail", "")).decode("utf8", "replace") if kv.get("detail", "-") != "-" else ""
+        sig = None
+        if v == "typecheck" and re.match(r"name/component-header/(c|s)$", name):
+            sig = "header_component_named_like_a_local"
+        if sig and any(k["signature"] == sig for k in run.known):
+            run.known_hit(sig, name + " [" + f[3] + "]")
+            continue
+        bad.append((len(dline.get(f[1], "")), i, name, f[3], v, detail))
+    bad.sort()
+    for (_, i, name, opt, v, detail) in bad[:3]:
+        f = cases[i].split(" ")
+        run.violation({"property": run.prop, "case": cases[i], "context": [dline.get(f[1], "")], "cell": name, "flags": opt,
+                       "verdict": v, "detail": detail[:2000],
+                       "broken": "goag reported success and the package it wrote is not a valid, gofmt-stable, standard-library-only, "
+                                 "type-correct Go package" if v != "panic" else "the generator crashed"}, cases[i])
+    run.coverage.update({
+        "rule": "feature matrix, one small document per cell: parameters (3 locations x 10 primitive types x scalar/array x required x nullable x "
+                "inline/schema-$ref/parameter-$ref x operation/path-item level), JSON positions (60 schema kinds incl. nullable, arrays, maps, any, "
+                "allOf, refs to primitive/array/map/nullable components x 8 positions: component, property required/optional, items, "
+                "additionalProperties, request body inline/component, response body inline/component), response headers (10 types x scalar/array x "
+                "required x inline/components.headers/schema-$ref/component response), non-JSON bodies (6 media types x 4 positions), name shapes "
+                "(60 names incl. Go keywords, predeclared and goag-fixed identifiers, separators, digits, non-ASCII x 14 positions), free-text shapes "
+                "(16 texts incl. newlines, comment delimiters, quotes x 10 positions), route shapes, methods, security shapes, status keys, plus "
+                "seeded compositions; each x flag combinations {client, do-not-edit, cors, base path from flag / servers / servers with variables}. "
+                "Every package the generator reports success for is judged with go/parser, gofmt idempotence (go/format), an import check "
+                "(standard library only) and `go build`. generator.PublicFieldName is compared with its Coq model on seeded ASCII names.",
+        "cells": n_cells, "verdicts": verdicts, "matrix_failures": len(bad),
+        "input_distribution": {k: v for k, v in meta.items() if k != "packages_bad"},
+        "trusted_base": TRUSTED_COMMON + [
+            "PARTIAL: type-correctness of the generated package is NOT a theorem; it is decided per matrix cell by the Go toolchain (go build) "
+            "on the real output: a finite enumeration outside Coq",
+            "oracles of the gate theorem: imports.Process (x/tools) succeeds only on parsable text and returns a gofmt fixpoint that parses; "
+            "go/parser and the clash check are section variables",
+            "the naming model covers ASCII names (unicode.IsLetter/IsUpper/IsDigit, strings.Title on bytes < 128); Title()/x-text casing is not modelled"],
+    })
+    if not proof_ok:
+        run.violation(dict(getattr(run, "coq_failure", {}), input=None), None, note="no-failing-input-found")
+    return run.finish()
+
+
+CHECKS = {"C01": check_C01, "C02": check_C02, "C10": check_C10, "C09": check_C09, "C12": check_C12, "C15": check_C15, "C19": check_C19, "C13": check_C13, "C03": check_C03, "C04": check_C04, "C05": check_C05, "C06": check_C06, "C07": check_C07, "C08": check_C08, "C11": check_C11, "C16": check_C16, "C17": check_C17}
 
 
 def setup():
